@@ -259,11 +259,10 @@ def disco_loop_asm_format(opc, version_tuple, co, real_out, fn_name_map, all_fns
                 opc, version_tuple, c_compat, real_out, fn_name_map, all_fns
             )
 
-            m = re.match(".* object <(.+)> at", str(c))
-            if m:
-                basename = m.group(1)
-                if basename != "module":
-                    c_compat.co_name = code_uniquify(basename, c.co_code)
+            # The recursive call above has already given c_compat its unique
+            # name (including the "_<lineno>" suffix that tells apart two
+            # lambdas with identical code); renaming it again here from the
+            # native object's repr dropped that suffix on the native path only.
             c_compat.freeze()
             new_consts.append(c_compat)
         else:
